@@ -129,6 +129,27 @@ func c06Gen(r *Rand, tier string, i int) Scenario {
 			sc.Net.LatencyMs = PickOf(r, 1, 10, 50)
 		}
 	}
+	if !many && (r.Bool(0.03) || (tier == "thorough" && r.Bool(0.05))) {
+		// many groups: every partial result is thousands of small AGGREGATE
+		// messages (well over the 32 KiB read buffers of the transport), so that
+		// read boundaries fall at arbitrary offsets inside and between messages
+		sc.Groups = PickOf(r, 700, 1100)
+		sc.Files = []int{PickOf(r, 1200, 1800)}
+		sc.Commands = []string{"m/*.log"}
+		sc.Transport = "ssh"
+		sc.Hosts = PickOf(r, 1, 2, 3)
+		sc.Interval = PickOf(r, 1, 5)
+		sc.Stalls = nil
+		if r.Bool(0.5) {
+			sc.Stalls = []StallSpec{{Name: "client.slow-report", Site: "mapr/globalgroupset.go", Suffix: "", From: r.Intn(30), To: -1, DurMs: 1}}
+		}
+		sc.Net = genNetProfile(r)
+		sc.Net.JitterMs = 0
+		if sc.Net.ChunkMax > 0 && sc.Net.ChunkMax < 1400 {
+			sc.Net.ChunkMax = 1400
+		}
+		return sc
+	}
 	if !many && r.Bool(0.25) {
 		sc.Stdout = true
 		if r.Bool(0.5) {
@@ -143,8 +164,20 @@ func c06Gen(r *Rand, tier string, i int) Scenario {
 			// takes a while for a few of the reports/merges (rendering a big table
 			// or a busy machine), so report windows overlap other events in time
 			from := r.Intn(12)
-			sc.Stalls = append(sc.Stalls, StallSpec{Name: "client.slow-report", Site: "mapr/globalgroupset.go", Suffix: "", From: from, To: from + PickOf(r, 2, 5, 20),
-				DurMs: PickOf(r, 100, 400, 900)})
+			sp := StallSpec{Name: "client.slow-report", Site: "mapr/globalgroupset.go", Suffix: "", From: from, To: from + PickOf(r, 2, 5, 20),
+				DurMs: PickOf(r, 100, 400, 900)}
+			if r.Bool(0.5) {
+				// slow from some point on to the very end: a report is likely to be
+				// under way when the last connection finishes
+				sp.To, sp.DurMs = from+150, PickOf(r, 100, 300)
+			}
+			sc.Stalls = append(sc.Stalls, sp)
+		}
+		if r.Bool(0.5) {
+			// the terminal is slow for one of the printed messages: the report that
+			// prints it finishes late, possibly after the final report was started
+			h := r.Intn(14)
+			sc.Stalls = append(sc.Stalls, StallSpec{Name: "consumer.single", Site: siteStdoutLock, Suffix: "/lock", From: h, To: h + 1, DurMs: PickOf(r, 500, 1500, 3000)})
 		}
 	}
 	return sc
@@ -206,6 +239,11 @@ func c06Run(t *testing.T, s Scenario, src verifsim.DecisionSource, keep bool) *R
 		total += n
 	}
 	bound := 120*time.Second + time.Duration(total*25)*time.Millisecond + time.Duration(sc.HoldCommandsMs)*time.Millisecond
+	for _, sp := range sc.Stalls {
+		if (sp.Name == "client.slow-report" || sp.Name == "consumer.single") && sp.To > sp.From {
+			bound += time.Duration((sp.To-sp.From)*sp.DurMs) * time.Millisecond
+		}
+	}
 	opts := RunOpts{Src: src, KeepLabels: keep, MaxFake: bound + 2*time.Minute, Stalls: stallRules(stalls)}
 	if sc.Transport == "ssh" {
 		np := sc.Net
@@ -242,6 +280,9 @@ func c06Run(t *testing.T, s Scenario, src verifsim.DecisionSource, keep bool) *R
 		proc = &ClientProc{Kind: "map", Args: a}
 		w.RunClient(proc, sc.Transport == "ssh")
 		if sc.Stdout {
+			if dp := os.Getenv("VERIF_DUMP_STDOUT"); dp != "" {
+				os.WriteFile(dp, w.Stdout(proc.StdoutCut), 0644)
+			}
 			csv, csvErr = c06LastTable(w.Stdout(proc.StdoutCut))
 		} else {
 			csv, csvErr = os.ReadFile(out)
